@@ -112,6 +112,38 @@ claim(
     "DESIGN.md §2 C17",
 )
 
+claim(
+    "C19",
+    "guard-fact dominance, write-mode inventory over the reference graph, def-use equality of the "
+    "templated name, partial evaluation (constant folding) of the dispatch helpers per CLI kind with "
+    "signature checks",
+    "Decides: the refuse-if-exists test dominates the call to gen in main and its true arm raises; every "
+    "write reachable from gen outside the phase>0 arm is append-mode (together: gen never truncates an "
+    "existing file); __all__ receives exactly the templated name handed to the emitter, once per input "
+    "element; for each of the 8 CLI emit kinds the emitter resolves, get_emit_kwarg has the key, the "
+    "keywords are parameters of the resolved emitter and its required parameters are supplied (exhaustive "
+    "over the finite kind set); the keyword carrying the templated name is the one that names the emitted "
+    "symbol.",
+    "NOT decided: that the written module compiles for every input, that each generated symbol re-parses "
+    "to its source entry, completeness of import inference (value level). Trusted: folding of the repo's "
+    "own tables from source.",
+    "DESIGN.md §2 C19",
+)
+
+claim(
+    "C03",
+    "partial evaluation (constant folding) of dispatch-by-name for every CLI kind and every infer() result; "
+    "table/choices set comparison; IR literal vocabulary; folded None sentinels",
+    "Decides necessary conditions only: every kind the CLI admits (and every constant infer can return) "
+    "dispatches to a parser/emitter module and attribute that exist (exhaustive over the finite kind set); "
+    "`sync --truth` choices are keys of the conformance table; every IR dict literal in the parsers uses "
+    "only IntermediateRepr keys; the three None sentinels agree in every version branch. A conversion chain "
+    "cannot preserve anything through a hop whose dispatch raises.",
+    "NOT decided: commutation of conversions and equality of the interface after several hops (value "
+    "level, quantified over histories) — no static argument in reach bounds it.",
+    "DESIGN.md §2 C03",
+)
+
 
 def main():
     """write MANIFEST.json"""
